@@ -32,9 +32,7 @@ const ALLOWED_TRAVERSAL_EDGES: &[&str] = &[
 ];
 
 fn is_allowed_edge_type(edge_type: &str) -> bool {
-    ALLOWED_TRAVERSAL_EDGES
-        .iter()
-        .any(|&allowed| edge_type.starts_with(allowed))
+    ALLOWED_TRAVERSAL_EDGES.contains(&edge_type)
 }
 
 // =====================================================================
